@@ -55,6 +55,77 @@ def refine_extend_refines(prog):
     return any(c.startswith(K("contour.refine(")) for c in calls) and len(rets) == 1 and T(f.module, rets[0].value) == "contour"
 
 
+def _guards_of(root, node):
+    """tests of the If statements whose *body* encloses node (innermost last)"""
+    out = []
+
+    def visit(n, stack):
+        if n is node:
+            out.extend(stack)
+            return True
+        if isinstance(n, ast.If):
+            for ch in n.body:
+                if visit(ch, stack + [(n.test, True)]):
+                    return True
+            for ch in n.orelse:
+                if visit(ch, stack + [(n.test, False)]):
+                    return True
+            return False
+        for ch in ast.iter_child_nodes(n):
+            if visit(ch, stack):
+                return True
+        return False
+
+    visit(root, [])
+    return out
+
+
+def refine_point_exits(prog, rep):
+    """exits of PsiContour.refinePoint: the input point is handed back unrefined only when the
+    contour has no psi value at all (`self.psival is None`); every other exit returns what a
+    refinement method returned or raises.  Also: psival is a number that may be 0.0, so it is
+    never tested for truthiness anywhere."""
+    f = prog.func(EQ, "PsiContour.refinePoint")
+    mod = f.module
+    pname = [a.arg for a in f.node.args.args if a.arg != "self"][0]
+    rets = [n for n in walk_own(f.node) if isinstance(n, ast.Return)]
+    n_unrefined = 0
+    for r in rets:
+        if isinstance(r.value, ast.Name) and r.value.id == pname:
+            n_unrefined += 1
+            g = _guards_of(f.node, r)
+            ok = len(g) >= 1 and g[-1][1] and T(mod, g[-1][0]) == K("self.psival is None")
+            rep.ob("R1", "refinePoint returns its input unrefined only for a contour without a psi value (`self.psival is None`)", ok, f.site(r),
+                   "guard: %s" % (T(mod, g[-1][0]) if g else "none"), key="typestate/refinePoint/unrefined-exit")
+        else:
+            ok = isinstance(r.value, ast.Call) and isinstance(r.value.func, ast.Subscript) and T(mod, r.value.func.value) == "available_methods"
+            rep.ob("R1", "refinePoint's other exits return the result of a refinement method", ok, f.site(r), T(mod, r.value)[:80], key="typestate/refinePoint/method-exit")
+    rep.floor("R1.refinePoint-exits", len(rets), 2)
+    # truthiness of psival anywhere in the package
+    bad = []
+    n_tests = 0
+    for m in prog.modules.values():
+        for n in ast.walk(m.tree):
+            tests = []
+            if isinstance(n, (ast.If, ast.While, ast.IfExp)):
+                tests.append(n.test)
+            elif isinstance(n, ast.Assert):
+                tests.append(n.test)
+            for t in tests:
+                stack = [t]
+                while stack:
+                    x = stack.pop()
+                    if isinstance(x, ast.BoolOp):
+                        stack.extend(x.values)
+                    elif isinstance(x, ast.UnaryOp) and isinstance(x.op, ast.Not):
+                        stack.append(x.operand)
+                    elif isinstance(x, ast.Attribute) and x.attr == "psival":
+                        bad.append("%s:%d `%s`" % (m.rel, x.lineno, m.code(t)))
+                    elif isinstance(x, ast.Compare) and any(isinstance(c, ast.Attribute) and c.attr == "psival" for c in [x.left] + x.comparators):
+                        n_tests += 1
+    rep.ob("R1", "a contour's psi value is never tested for truthiness (0.0 is a legitimate flux value)", not bad, EQ, "; ".join(bad), key="typestate/psival-truthiness")
+
+
 def r1(prog, rep):
     mod = prog.module(MESH)
     ok_re = refine_extend_refines(prog)
@@ -66,6 +137,7 @@ def r1(prog, rep):
     n_ref = sum(1 for n in ast.walk(gr.node) if isinstance(n, ast.Call) and T(gr.module, n.func) == "self.refinePoint")
     appends = sum(1 for n in ast.walk(gr.node) if isinstance(n, ast.Call) and T(gr.module, n.func) == "newpoints.append")
     rep.ob("R1", "getRefined passes every point (first, interior, last) through refinePoint", n_ref == 3 and appends == 3, gr.site(), "%d refinePoint calls, %d appends" % (n_ref, appends), key="typestate/getRefined")
+    refine_point_exits(prog, rep)
     names = ["MeshRegion.__init__", "MeshRegion.addPointAtWallToContours", "MeshRegion.distributePointsNonorthogonal"]
     summaries = {"self.addPointAtWallToContours": True, "self.distributePointsNonorthogonal": True}
     clean_sites = 0
